@@ -5,7 +5,7 @@ from __future__ import annotations
 
 from sa.guards import CountResolver
 from sa.cfront import LIB_TUS
-from . import scopes, lib_guards, lib_module, lib_gate, lib_err, lib_file, lib_taint, lib_mem, lib_stats, lib_schema
+from . import scopes, lib_guards, lib_module, lib_gate, lib_err, lib_file, lib_taint, lib_mem, lib_stats, lib_schema, lib_tree, lib_kind
 
 LEVEL = "other"
 EXPLANATION = ("Static analysis of /repo's current C and Python source (clang type-checked AST, Python ast): "
@@ -34,6 +34,10 @@ def run(ctx):
     lib_mem.capacity(ctx, P)
     lib_mem.block_allocator(ctx, P)
     lib_mem.logical_not_in_mask(ctx, P)
+    lib_module.owned_arrays(ctx, P)          # dangling / writable views of library memory
+    lib_tree.tree_copy_clear(ctx, P)         # traversal buffers are sized from the copied tree state
+    lib_kind.takeset_atomic(ctx, P)
+    lib_kind.dict_atomic(ctx, P)
     lib_stats.early_exits(ctx, P)
     from sa.schema import load_schemas
     lib_schema.dict_interchange(ctx, P, load_schemas(P))
